@@ -131,16 +131,22 @@ func syncPart(t *testing.T, run *ev.Run) {
 			run.Violation("producer-rejected-own-block", fmt.Sprint("source", s.idx), s.h.P.Rejected.Error(), nil)
 			return
 		}
-		td := s.trie(s.n / uint32(s.I) * uint32(s.I) - uint32(s.I))
+		td := s.trie(s.n/uint32(s.I)*uint32(s.I) - uint32(s.I))
 		run.Sample(map[string]any{"source": s.idx, "protocol": s.h.PName, "blocks": s.n, "tx_kinds": s.h.P.KindsSummary(), "trie_nodes_at_a_sync_point": len(td.nodes), "of_them_reachable_by_several_paths": td.multi, "branches_with_equal_children": td.twins, "storage_items": len(td.items)})
 		run.Obs("source_blocks", int64(s.n))
 	}
-	perSrc := ev.Pick(12, 30)
-	crashPerSrc := ev.Pick(2, 4)
+	perSrc := ev.Pick(12, 80)
+	crashPerSrc := ev.Pick(2, 8)
 	var jobs []syncJob
 	for si, src := range srcs {
 		other := srcs[(si+1)%len(srcs)]
 		lo, hi := uint32(2*src.I+1), src.n-1
+		var edges []uint32
+		for q := uint32(2 * src.I); q < src.n; q += uint32(src.I) {
+			if (q+1)%vchain.Epoch == 0 {
+				edges = append(edges, q)
+			}
+		}
 		for k := 0; k < perSrc; k++ {
 			stream := uint64(src.idx)*1000 + uint64(k) + 7
 			r := rng.New(stream + 500)
@@ -151,6 +157,13 @@ func syncPart(t *testing.T, run *ev.Run) {
 			sc.Remote = lo + uint32(r.Intn(int(hi-lo+1)))
 			if k == 0 {
 				sc.Remote = hi // the latest point
+			}
+			if k%4 == 3 && len(edges) > 0 {
+				// a sync point that is the last block of a committee epoch
+				sc.Remote = edges[(k/4)%len(edges)] + uint32(r.Intn(src.I))
+				if sc.Remote > hi {
+					sc.Remote = hi
+				}
 			}
 			sc.Restart = map[string]int{"headers": 100, "data": 40, "blocks": 200, "synced": 150}
 			// some runs keep a stage free of restarts, so that the stages behind it are reached whatever happens there
@@ -182,6 +195,7 @@ func syncPart(t *testing.T, run *ev.Run) {
 				sc.Backend = "mem"
 			}
 			jobs = append(jobs, syncJob{sc.ID, func() {
+				run.BeginCase(sc.ID, sc)
 				st, dir, err := newStore(sc)
 				if err != nil {
 					run.Inconclusive("%s: %v", sc.ID, err)
